@@ -13,6 +13,9 @@ A case is a JSON-able dict (also the format of corpus/c09_*.json):
                 coordinates (vermouth.selectors.selector_has_position) just like None/'absent'
   or a HISTORY: entry 'history', weight, ignore, steps [{ffvar, atoms, beads}, ...]: ONE DoAverageBead
   object applied to the molecules in turn (each with its own force field / center_weight variable)
+  or a SYSTEM: entry 'system', same fields + style: the molecules in one vermouth.System, ONE run_system
+  qexp    (optional) the coordinates are scaled by 2^s, results cross in units of 2^-qexp (driver op avgq)
+The mapping-definition stream (real do_mapping -> DoAverageBead, driver op pipe) lives in c09_map.py.
   beads   [{'graph': [keys in subgraph order] | None, 'weights': [[key,'n/d'],...] | None,
             'container': 'subgraph' | 'nx'}, ...]
 All numbers are exact rationals whose float image is exact (dyadic); the float computation of
@@ -29,8 +32,12 @@ chk.extra['rule'] = ('a fine-grained Molecule and a particle Molecule are built 
                      'networkx graph, mapping_weights dict in independently shuffled order, atoms shared between '
                      'particles, positions missing/None, keys missing from the weight dict, extraneous keys); the real '
                      'do_average_bead / DoAverageBead.run_molecule is run; a case is non-trivial if some particle has '
-                     '>= 2 positioned constituents with unequal weights; distinct = distinct protocol line')
-chk.lean(['VermouthProps.C09'], 'driver_c09')
+                     '>= 2 positioned constituents with unequal weights; distinct = distinct protocol line. Extension: '
+                     'mapping-definition stream (real do_mapping + DoAverageBead on the C01 toy generators, positions '
+                     'recomputed from Mapping.mapping; non-trivial = unequal declared weights, an atom re-weighted by a '
+                     'modification mapping, or shared atoms), systems (one run_system over molecules with and without '
+                     'center_weight; non-trivial = unequal weights and at least one with/without switch), boundary stream')
+chk.lean(['VermouthProps.C09', 'VermouthProps.C09_Pipeline', 'VermouthProps.C09_Boundary'], 'driver_c09')
 
 import numpy as np
 import networkx as nx
@@ -104,8 +111,8 @@ def build(case):
     return aa, cg
 
 
-def quant(v):
-    return floor(F(float(v)) * Q + F(1, 2))
+def quant(v, qexp=30):
+    return floor(F(float(v)) * (F(2) ** qexp) + F(1, 2))
 
 
 def run_impl(case, proc=None):
@@ -135,8 +142,15 @@ def run_impl(case, proc=None):
             out.append('-' if ok else 'xtouched')
             raw.append(None if ok else 'touched')
             continue
+        held = cg.nodes[3 * i + 2].get('position')
         pos = np.asarray(pos, dtype=float)
-        if pos.shape != (3,):
+        if isinstance(held, np.ndarray) and any(
+                isinstance(d.get('position'), np.ndarray) and np.shares_memory(held, d['position'])
+                for g_ in (cg.nodes[3 * i + 2]['graph'], aa) for d in g_.nodes.values()):
+            # the particle's position must be its own array: writing to it must not move an atom
+            out.append('xaliased')
+            raw.append('aliased: the position array of the particle shares memory with the position of an atom')
+        elif pos.shape != (3,):
             out.append('xshape')
             raw.append('shape %r' % (pos.shape,))
         elif np.all(np.isnan(pos)):
@@ -146,7 +160,7 @@ def run_impl(case, proc=None):
             out.append('xnonfinite')
             raw.append('nonfinite %r' % (pos,))
         else:
-            out.append('[ %d %d %d ]' % tuple(quant(c) for c in pos))
+            out.append('[ %d %d %d ]' % tuple(quant(c, case.get('qexp', 30)) for c in pos))
             raw.append(tuple(F(float(c)) for c in pos))
     return 'ok ' + ('[ ' + ' '.join(out) + ' ]' if out else '[ ]'), raw
 
@@ -172,6 +186,9 @@ def proto(case):
     wt = case['weight']
     wt = 0 if wt is False else wt
     ffv = None if case['ffvar'] == 'absent' else case['ffvar']
+    if 'qexp' in case:
+        # scaled inputs: results cross in units of 2^-qexp
+        return line('avgq', case['qexp'], entry, wt, ffv, case['ignore'], beads)
     return line('avg', entry, wt, ffv, case['ignore'], beads)
 
 
@@ -286,11 +303,31 @@ def oracle(case, raw):
                 errs.append('particle %d axis %d: position %.10f is not the weighted mean %.10f of its %d positioned '
                             'constituents' % (i, ax, float(r[ax]), float(want), len(cons)))
                 break
+        # weights of ANY sign: the particle lies in the affine hull of the constituents that carry weight -
+        # a coordinate they all share is the particle's coordinate
+        live = [x for w, x in cons if w != 0]
+        for ax in range(3):
+            vals = {x[ax] for x in live}
+            if len(vals) == 1:
+                flags.add('shared_coordinate')
+                v = next(iter(vals))
+                if abs(r[ax] - v) > scale * F(1, 1 << 40) / abs(total):
+                    errs.append('particle %d axis %d: every weighted constituent has coordinate %s, the particle has '
+                                '%.12g' % (i, ax, v, float(r[ax])))
+                    break
+        if any(w < 0 for w, _ in cons):
+            flags.add('negative_weight')
+        if len(live) == 1:
+            flags.add('single_weighted_constituent')
+        if any(x == (0, 0, 0) for x in live):
+            flags.add('constituent_at_origin')
         if all(w >= 0 for w, _ in cons):
+            # (cases with scaled coordinates: the float result carries a relative rounding error)
+            btol = F(1, 1 << 40) * (1 if 'qexp' not in case else max(1, max(abs(c) for _, x in cons for c in x)))
             for ax in range(3):
                 lo = min(x[ax] for w, x in cons if w > 0)
                 hi = max(x[ax] for w, x in cons if w > 0)
-                if not (lo - F(1, 1 << 40) <= r[ax] <= hi + F(1, 1 << 40)):
+                if not (lo - btol <= r[ax] <= hi + btol):
                     errs.append('particle %d axis %d: %.10f outside the bounding box [%s, %s] of its constituents'
                                 % (i, ax, float(r[ax]), lo, hi))
                     break
@@ -562,6 +599,93 @@ def within_one(a, b):
     return True
 
 
+# ----------------------------------------------------------------------------
+# boundary values: weight 0 / 0.0 versus a key missing from mapping_weights, mass 0, atoms AT the origin
+# ([0, 0, 0] is a position), a single (weighted / positioned) constituent, negative weights on collinear or
+# coplanar atoms (affine hull), coordinates scaled by 2^s, s in [-60, 60] (exact in binary64: 13-bit
+# mantissas, weights in sixteenths; results cross in units of 2^(s-20)).
+# ----------------------------------------------------------------------------
+def gen_boundary(rng):
+    kind = rng.choice(['single', 'single', 'origin', 'origin', 'zero_vs_missing', 'mass0', 'negative', 'scaled',
+                       'scaled'])
+    s = rng.choice([-60, -40, -21, -7, 5, 20, 33, 60]) if kind == 'scaled' else 0
+    unit = F(2) ** s
+
+    def coord():
+        if kind == 'scaled':
+            return fs(rng.randint(-4096, 4096) * unit)
+        return fs(F(rng.randint(-640, 640), 64))
+    n_atoms = rng.choice([1, 1, 2, 3, 4, 6]) if kind == 'single' else rng.choice([2, 3, 4, 6, 8])
+    keys = rng.sample(range(0, 40), n_atoms)
+    masses = {'mass0': [F(0), F(0), F(0), F(1), F(12)], 'negative': [F(1), F(2)]}.get(kind, MASS + [F(0)])
+    if kind == 'mass0' and rng.random() < 0.4:
+        masses = [F(0)]
+    plane = [rng.random() < 0.5 for _ in range(3)]      # 'negative': coordinates shared by all atoms
+    shared = [coord() for _ in range(3)]
+    atoms = []
+    for j, k in enumerate(keys):
+        pos = [coord() for _ in range(3)]
+        if kind == 'origin' and rng.random() < 0.6:
+            pos = ['0', '0', '0']
+        if kind == 'negative':
+            pos = [shared[ax] if plane[ax] else pos[ax] for ax in range(3)]
+        if kind == 'single' and j > 0 and rng.random() < 0.7:
+            pos = rng.choice([None, 'absent', [pos[0], 'nan', pos[2]]])
+        atoms.append([k, pos, {'mass': fs(rng.choice(masses)), 'other': fs(rng.choice([F(0), F(1), F(2)]))}])
+    if kind == 'origin' and rng.random() < 0.3:
+        for a in atoms:
+            a[1] = ['0', '0', '0']
+    beads = []
+    for _ in range(rng.randint(1, 3)):
+        graph = rng.sample(keys, rng.randint(1, n_atoms))
+        if kind == 'single' and rng.random() < 0.5:
+            graph = graph[:1]
+        weights = []
+        for k in graph:
+            r = rng.random()
+            if kind == 'zero_vs_missing':
+                if r < 0.4:
+                    weights.append([k, '0'])
+                elif r < 0.7:
+                    continue                       # key missing: weight 1
+                else:
+                    weights.append([k, fs(rng.choice(MAPW))])
+            elif kind == 'negative':
+                weights.append([k, fs(rng.choice([F(-1), F(2), F(-1, 2), F(3), F(1), F(-2)]))])
+            elif kind == 'single':
+                if r < 0.25:
+                    continue
+                weights.append([k, fs(rng.choice([F(0), F(0), F(1), F(2), F(1, 4), F(-1)]))])
+            else:
+                if r < 0.15:
+                    continue
+                weights.append([k, fs(rng.choice(MAPW))])
+        rng.shuffle(weights)
+        beads.append({'graph': graph, 'weights': None if (not weights and rng.random() < 0.5) else weights,
+                      'container': rng.choice(['subgraph', 'nx'])})
+    entry = rng.choice(['function', 'processor'])
+    if entry == 'function':
+        weight, ffvar = rng.choice([None, None, 'mass', 'other']), rng.choice(['absent', 'mass'])
+    else:
+        weight = rng.choice([None, None, None, False, 'mass'])
+        ffvar = rng.choice(['absent', None, 'mass', 'mass', 'other'])
+    c = {'entry': entry, 'weight': weight, 'ffvar': ffvar, 'ignore': rng.random() < 0.5, 'atoms': atoms,
+         'beads': beads, 'kind': 'boundary-' + kind}
+    if kind == 'scaled':
+        c['qexp'] = 20 - s
+    return c
+
+
+rng = chk.rng('boundary')
+for i in range(8000 if chk.thorough else 900):
+    c = gen_boundary(rng)
+    cases.append(('boundary-%d' % i, c, None, None))
+    if rng.random() < 0.25:
+        rot = rng.choice(ROTS)
+        unit = F(2) ** (20 - c['qexp']) if 'qexp' in c else F(1, 64)
+        shift = [rng.randint(-1280, 1280) * unit for _ in range(3)]
+        cases.append(('boundary-%d-moved' % i, moved(c, rot, shift), len(cases) - 1, (rot, shift)))
+
 # Constituents with non-finite coordinates, densely (F-C09-1, fixed in /repo by 8cf210c: they are
 # without coordinates and must never contribute, even when only ONE coordinate is undefined).
 rng = chk.rng('nanpos')
@@ -622,11 +746,190 @@ rng = chk.rng('history')
 for i in range(6000 if chk.thorough else 500):
     cases.append(('history-%d' % i, gen_history(rng), None, None))
 
+# ----------------------------------------------------------------------------
+# mapping-definition stream (harness/c09_map.py): REAL do_mapping then REAL DoAverageBead on the toy force
+# fields / molecules of the C01 generators (block mappings: shared atoms, zero weights, spawned particles,
+# overlapping matches; modification mappings that RE-WEIGHT an atom the block mapping already maps, new
+# PTM particles), dyadic coordinates / masses on the INPUT molecule.  Model: the composed Lean model
+# (`pipe`); oracle: positions recomputed from the mapping definition, not from 'mapping_weights'.
+# ----------------------------------------------------------------------------
+import c09_map
+quiet_vermouth_logs()
+map_cases = []
+try:
+    C01D = c09_map.load_c01_defs(chk)
+    mrng = chk.rng('mapdef')
+    for i in range(int(os.environ.get('C09_NMAP', 2000 if chk.thorough else 170))):
+        map_cases.append(('mapdef-blocks-%d' % i, c09_map.run_case(C01D, mrng, 'blocks')))
+    for i in range(int(os.environ.get('C09_NMOD', 2000 if chk.thorough else 170))):
+        map_cases.append(('mapdef-mods-%d' % i, c09_map.run_case(C01D, mrng, 'mods')))
+except Exception as e:
+    import traceback
+    chk.notes.append('mapping-definition stream failed: %s' % traceback.format_exc()[-800:])
+    chk.count('mapdef_stream_failed')
+    chk.case('mapdef-stream', 'mapdef', 'stream-failed', 'stream-ok',
+             ['the mapping-definition stream could not be generated: %r' % (e,)], True)
+    map_cases = []
+quiet_vermouth_logs()
+mmodels = chk.drv.ask([c['line'] for _, c in map_cases]) if chk.lean_ok else [None] * len(map_cases)
+for (cid, c), mo in zip(map_cases, mmodels):
+    errs, flags = [], set()
+    if c['status'] == 'ok':
+        errs, flags = c09_map.definition_oracle(c, c['out'], c['raw_pos'], c['status2'])
+        if c['status2'].startswith('exception') or c['status2'] == 'returned-other-object':
+            errs.append('unexpected behaviour of DoAverageBead: ' + c['status2'])
+    elif c['status'].startswith('exception'):
+        errs.append('unexpected behaviour of do_mapping: ' + c['status'])
+    chk.count('mapdef_kind=' + c['kind'])
+    chk.count('mapdef_outcome=' + c['impl'].split()[0] + ('' if c['status'] == 'ok' else ' ' + c['status']))
+    chk.count('mapdef_config weight=%r ffvar=%r' % (c['weight'], c['ffvar']))
+    chk.count('mapdef_block_matches', len(c['rawb']))
+    chk.count('mapdef_mod_matches', len(c['rawm']))
+    if c['rawm']:
+        chk.count('mapdef_case_with_mod_match')
+        # does a modification mapping re-weight an atom its block mapping maps to the same particle name?
+        rew = False
+        for i, mt in c['rawm']:
+            m = c['mods'][i]
+            for atom, f in mt:
+                for b, w in m.mapping.get(f, {}).items():
+                    if m.block_to.nodes[b].get('PTM_atom', False):
+                        continue
+                    for j, bt in c['rawb']:
+                        bm = c['blocks'][j]
+                        for a2, f2 in bt:
+                            if a2 == atom:
+                                for t, w2 in bm.mapping.get(f2, {}).items():
+                                    if bm.block_to.nodes[t].get('atomname') == m.block_to.nodes[b].get('atomname') \
+                                            and F(w2) != F(w):
+                                        rew = True
+        if rew:
+            chk.count('mapdef_case_reweighted_by_modification')
+            flags.add('reweighted')
+    for f in sorted(flags):
+        chk.count('mapdef_flag_' + f)
+    nontriv = c['status2'] == 'ok' and ('unequal' in flags or 'reweighted' in flags or 'shared_atoms' in flags)
+    chk.case(cid, c['line'], c['impl'], mo, [str(e) for e in errs], nontriv)
+
+# ----------------------------------------------------------------------------
+# systems: ONE DoAverageBead.run_system over 2-5 molecules that interleave force fields WITH and WITHOUT a
+# center_weight variable (each molecule carries its own ForceField object, or all share one).  An exception
+# in one molecule ends the run (Processor.run_system is a plain loop): outcomes up to the first error.
+# ----------------------------------------------------------------------------
+import vermouth
+
+
+def gen_system(rng):
+    weight = rng.choice([None, None, None, None, False, 'mass', 'other'])
+    ignore = rng.random() < 0.6
+    n = rng.choice([2, 3, 3, 4, 5])
+    style = rng.choice(['alternate', 'alternate', 'random', 'shared'])
+    first = rng.choice(['absent', 'mass'])
+    steps = []
+    for j in range(n):
+        c = gen_case(rng)
+        if style == 'alternate':
+            ffv = first if j % 2 == 0 else ('mass' if first == 'absent' else rng.choice(['absent', None]))
+        elif style == 'shared':
+            ffv = first
+        else:
+            ffv = rng.choice(['absent', 'absent', None, 'mass', 'mass', 'other'])
+        steps.append({'ffvar': ffv, 'atoms': c['atoms'], 'beads': c['beads']})
+    return {'entry': 'system', 'weight': weight, 'ignore': ignore, 'steps': steps, 'kind': 'system', 'style': style}
+
+
+def proto_system(h):
+    steps = []
+    for st in h['steps']:
+        toks = dec(proto(step_case(h, st)))
+        steps.append([toks[3], toks[5]])
+    wt = 0 if h['weight'] is False else h['weight']
+    return line('sys', wt, h['ignore'], steps)
+
+
+def read_positions(case, cg):
+    out, raw = [], []
+    for i, b in enumerate(case['beads']):
+        pos = cg.nodes[3 * i + 2].get('position')
+        if b['graph'] is None:
+            ok = pos is not None and tuple(float(c) for c in pos) == SENTINEL
+            out.append('-' if ok else 'xtouched')
+            raw.append(None if ok else 'touched')
+            continue
+        pos = np.asarray(pos, dtype=float)
+        if pos.shape != (3,):
+            out.append('xshape'); raw.append('shape %r' % (pos.shape,))
+        elif np.all(np.isnan(pos)):
+            out.append('[ ]'); raw.append('nan')
+        elif np.any(~np.isfinite(pos)):
+            out.append('xnonfinite'); raw.append('nonfinite %r' % (pos,))
+        else:
+            out.append('[ %d %d %d ]' % tuple(quant(c) for c in pos))
+            raw.append(tuple(F(float(c)) for c in pos))
+    return 'ok ' + ('[ ' + ' '.join(out) + ' ]' if out else '[ ]'), raw
+
+
+def run_system_real(h):
+    """returns (canonical string, [raw per processed molecule], errors)"""
+    built = [build(step_case(h, st)) for st in h['steps']]
+    if h['style'] == 'shared':
+        shared = built[0][1].force_field
+        for _, cg in built:
+            cg._force_field = shared
+    system = vermouth.System()
+    system.molecules = [cg for _, cg in built]
+    before = list(system.molecules)
+    errs, err = [], None
+    try:
+        ret = DoAverageBead(ignore_missing_graphs=h['ignore'], weight=h['weight']).run_system(system)
+        if ret is not None:
+            errs.append('run_system returned %r' % (ret,))
+        if len(system.molecules) != len(before) or any(a is not b for a, b in zip(system.molecules, before)):
+            errs.append('run_system changed the list of molecules of the system')
+    except KeyError:
+        err = 'keyerror'
+    except ValueError:
+        err = 'valueerror'
+    except Exception as e:
+        err = 'exception:' + type(e).__name__
+    outs, raws_ = [], []
+    for j, (st, (_, cg)) in enumerate(zip(h['steps'], built)):
+        sc = step_case(h, st)
+        fresh, _ = run_impl(sc)
+        if not fresh.startswith('ok'):
+            # this molecule is where the run stops
+            if err is None:
+                errs.append('molecule %d: a fresh DoAverageBead gives %s, run_system raised nothing' % (j, fresh))
+            elif err != fresh:
+                errs.append('molecule %d: a fresh DoAverageBead gives %s, run_system raised %s' % (j, fresh, err))
+            outs.append(err or 'no-error')
+            raws_.append(None)
+            break
+        s1, raw1 = read_positions(sc, cg)
+        if s1 != fresh:
+            errs.append('molecule %d (center_weight=%r) in the system gives %s, alone with a fresh DoAverageBead %s'
+                        % (j, st['ffvar'], clip(s1, 200), clip(fresh, 200)))
+        outs.append(s1)
+        raws_.append(raw1)
+    else:
+        if err is not None:
+            errs.append('run_system raised %s although every molecule alone succeeds' % err)
+            outs.append(err)
+    return ' | '.join(outs), raws_, errs
+
+
+rng = chk.rng('system')
+for i in range(3000 if chk.thorough else 350):
+    cases.append(('system-%d' % i, gen_system(rng), None, None))
+
 lines, impls, raws, pre_errs = [], [], [], []
 for cid, c, twin, motion in cases:
     if c['entry'] == 'history':
         s, raw, e = run_history(c)
         lines.append(proto_history(c))
+    elif c['entry'] == 'system':
+        s, raw, e = run_system_real(c)
+        lines.append(proto_system(c))
     else:
         s, raw = run_impl(c)
         e = []
@@ -643,6 +946,32 @@ for cid, c, im, raw, e in pipeline:
 models = chk.drv.ask(lines) if chk.lean_ok else [None] * len(lines)
 
 for idx, ((cid, c, twin, motion), ln, im, mo, raw) in enumerate(zip(cases, lines, impls, models, raws)):
+    if c['entry'] == 'system':
+        errs, flags = list(pre_errs[idx]), set()
+        sims = im.split(' | ')
+        for j, (st, r, sim) in enumerate(zip(c['steps'], raw, sims)):
+            sc = step_case(c, st)
+            e, f = oracle(sc, r)
+            errs += ['molecule %d (center_weight=%r): %s' % (j, st['ffvar'], m) for m in e]
+            flags |= f
+            if sim.startswith('exception') or sim in ('returned-other-object', 'no-error'):
+                errs.append('molecule %d: unexpected behaviour: %s' % (j, sim))
+            elif r is None and must_succeed(sc):
+                errs.append('molecule %d: no positions generated (%s) although every particle has a graph and every '
+                            'constituent has the centre-weight attribute' % (j, sim))
+        ffvars = [None if st['ffvar'] == 'absent' else st['ffvar'] for st in c['steps']]
+        chk.count('kind=system')
+        chk.count('system_style=' + c['style'])
+        chk.count('system_molecules=%d' % len(ffvars))
+        chk.count('system_processed=%d' % len(sims))
+        switches = sum(1 for a, b in zip(ffvars, ffvars[1:]) if (a is None) != (b is None))
+        chk.count('system_with_without_switches=%d' % min(switches, 4))
+        chk.count('system weight=%r' % (c['weight'],))
+        for sim in sims:
+            chk.count('outcome=' + sim.split()[0])
+        nontriv = 'unequal' in flags and switches >= 1
+        chk.case(cid, ln, im, mo, [str(e) for e in errs], nontriv)
+        continue
     if c['entry'] == 'history':
         errs, flags = list(pre_errs[idx]), set()
         for j, (st, r, sim) in enumerate(zip(c['steps'], raw, im.split(' | '))):
@@ -690,7 +1019,8 @@ for idx, ((cid, c, twin, motion), ln, im, mo, raw) in enumerate(zip(cases, lines
             for i, (r0, r1) in enumerate(zip(base_raw, raw)):
                 if isinstance(r0, tuple) and isinstance(r1, tuple):
                     want = move_point(r0, rot, shift)
-                    if any(abs(a - b) > F(1, 1 << 36) for a, b in zip(want, r1)):
+                    ttol = F(1, 1 << 36) * (1 if 'qexp' not in c else max([1] + [abs(x) for x in want]))
+                    if any(abs(a - b) > ttol for a, b in zip(want, r1)):
                         errs.append('particle %d does not follow the rigid motion: %s expected %s'
                                     % (i, [float(x) for x in r1], [float(x) for x in want]))
                 elif r0 != r1:
